@@ -686,8 +686,67 @@ def gen_mws(r, tbl, side, p_raise=0.05):
                 else:
                     h["act"] = "keep"
             s[name] = h
+        gen_shape(r, s, out)
         out.append(s)
     return out
+
+
+SHAPE_P = 0.3      # fraction of the middlewares whose hooks are not all defined on a direct subclass of TaskiqMiddleware
+
+
+def own_hooks(s):
+    """names of the hooks the CLASS of middleware spec `s` overrides"""
+    return [n for n in HOOKS_ALL if s.get(n) is not None and not s[n].get("inst")]
+
+
+def gen_shape(r, s, prev):
+    """class shape of one recording middleware (driver: make_mw_class).  The override mask - which hooks
+    `cls.hook != TaskiqMiddleware.hook` - is the same for every shape: only WHERE in the class hierarchy the overriding
+    function is defined changes (the class itself, an intermediate base class, a grandparent, a mixin), and whether two
+    middlewares of the stack are instances of one class."""
+    if r.random() >= SHAPE_P:
+        return
+    own = own_hooks(s)
+    kinds = ["inherited", "inherited", "inherited+init", "mixin", "split", "split", "reoverride", "deep"]
+    if prev:
+        kinds += ["twin", "twin"]
+    kind = r.choice(kinds)
+    if kind == "twin":
+        # another instance of the previous middleware's class (same hooks, same shape)
+        p = prev[-1]
+        for n in HOOKS_ALL:
+            s.pop(n, None)
+        s.update(json.loads(json.dumps({k: v for k, v in p.items() if k != "shape"})))
+        sh = json.loads(json.dumps(p.get("shape") or {}))
+        pk = (p.get("shape") or {}).get("kind", "direct")
+        sh.update(twin=True, kind=pk if pk.startswith("twin") else "twin" if pk == "direct" else "twin+" + pk)
+        s["shape"] = sh
+        return
+    sh = {"kind": kind}
+    if kind == "inherited":
+        sh.update(depth=1, at={n: "base" for n in own})
+    elif kind == "inherited+init":
+        sh.update(depth=r.choice([1, 1, 2]), init=True, at={n: r.choice(["base", "base", "root"]) for n in own})
+    elif kind == "mixin":
+        sh.update(mixin=True, mixin_mw=r.random() < .3, depth=r.choice([0, 0, 1]), at={n: "mixin" for n in own})
+    elif kind == "deep":
+        sh.update(depth=2, at={n: "root" for n in own})
+    elif kind == "split":
+        sh.update(mixin=r.random() < .5, mixin_mw=r.random() < .3, depth=r.choice([0, 1, 2]), init=r.random() < .2)
+        places = ["leaf", "base", "root"] + (["mixin", "mixin"] if sh["mixin"] else [])
+        sh["at"] = {n: r.choice(places) for n in own}
+        if own and all(w == "leaf" for w in sh["at"].values()):
+            sh["at"][r.choice(own)] = r.choice(places[1:])
+    else:   # a subclass that re-overrides hooks of its base: the base's definition is shadowed, the rest is inherited
+        sh.update(depth=r.choice([1, 2]), mixin=r.random() < .3, at={}, shadow={})
+        for n in own:
+            if r.random() < .6:
+                w = r.choice(["leaf", "leaf", "mixin"] if sh["mixin"] else ["leaf"])
+                sh["at"][n] = w
+                sh["shadow"][n] = r.choice(["base", "root"])
+            else:
+                sh["at"][n] = r.choice(["base", "root"])
+    s["shape"] = sh
 
 
 def gen_recv(r, focus="c02", allow_d10=True):
@@ -772,6 +831,20 @@ def gen_send(r):
 
 
 # ------------------------------------------------------------------------------------- distribution
+def count_shapes(rep, case, per):
+    """class shapes of the stack, and for every hook that FIRED where in the class hierarchy it is defined"""
+    for s in case["mws"]:
+        sh = s.get("shape") or {}
+        rep.count("mw-class:" + sh.get("kind", "direct"))
+        if sh.get("shadow"):
+            rep.count("mw-class:has-shadowed-base-hook")
+    for evs in per:
+        for e in evs:
+            if e[0] == "hook" and 0 <= e[2] < len(case["mws"]):
+                sh = case["mws"][e[2]].get("shape") or {}
+                rep.count("hook-defined-on:" + (sh.get("at") or {}).get(e[1], "leaf") + (",twin" if sh.get("twin") else ""))
+
+
 def count_recv(rep, case, per, late):
     at = case.get("ack_type") or "default(when_saved)"
     rep.count("messages:%d" % len(case["msgs"]))
@@ -779,6 +852,7 @@ def count_recv(rep, case, per, late):
     if len({M["id"] for M in case["msgs"]}) < len(case["msgs"]):
         rep.count("redelivery(same task id, concurrent)")
     rep.count("stack:%d" % len(case["mws"]))
+    count_shapes(rep, case, per)
     for i, M in enumerate(case["msgs"]):
         evs = per[i]
         rep.count("kind:" + M["kind"])
@@ -869,6 +943,7 @@ def explore(ctx, rep, pid, cases, label, oracles, nontrivial):
         else:
             rep.count("sends:%d" % len(c["sends"]))
             rep.count("stack:%d" % len(c["mws"]))
+            count_shapes(rep, c, per)
             for S in c["sends"]:
                 rep.count("kick:" + S.get("kick", "ok"))
             for evs in per:
